@@ -30,6 +30,10 @@ def make_param(name):
     r.add_float_param('p', 2.0, 3.0)          # range exactly 1, lower bound not 0
   elif name == 'D_sym1':
     r.add_float_param('p', -0.5, 0.5)
+  elif name == 'D_f32hi':
+    r.add_float_param('p', 1000000.1, 1000000.3)
+  elif name == 'D_f32lo':
+    r.add_float_param('p', -0.3, 0.3)
   elif name == 'D_single':
     r.add_float_param('p', 2.0, 2.0)
   elif name == 'I_small':
